@@ -33,6 +33,7 @@ type C13Cell struct {
 	Prefix  []Item   `json:"prefix,omitempty"`
 	Preload bool     `json:"preload,omitempty"`
 	Mode    int      `json:"mode"` // 0: passes=2; 1: passes=0, limit=3
+	COE     bool     `json:"continue_on_error,omitempty"`
 	Text    string   `json:"text,omitempty"`
 	Name_   string   `json:"name,omitempty"`
 }
@@ -41,7 +42,7 @@ func (c C13Cell) Name() string {
 	if c.Name_ != "" {
 		return c.Tier + "|" + c.Format + "|" + c.Name_
 	}
-	return fmt.Sprintf("%s|%s|preload=%v|mode=%d|prefix=%d|%q", c.Tier, c.Format, c.Preload, c.Mode, len(c.Prefix), strings.Join(c.Tokens, ""))
+	return fmt.Sprintf("%s|%s|preload=%v|mode=%d|coe=%v|prefix=%d|%q", c.Tier, c.Format, c.Preload, c.Mode, c.COE, len(c.Prefix), strings.Join(c.Tokens, ""))
 }
 
 func (c C13Cell) file() []byte {
@@ -65,6 +66,9 @@ func (c C13Cell) conf() map[string]any {
 		if c.Preload {
 			m["preload"] = true
 		}
+	}
+	if c.COE {
+		m["continueonerror"] = true
 	}
 	if c.Mode == 0 {
 		m["passes"] = 2
@@ -185,6 +189,10 @@ func c13cells(thorough bool, fn func(c C13Cell)) error {
 		got := tokenStrings(alpha, maxLen, func(toks []string) {
 			for mode := 0; mode < 2; mode++ {
 				fn(C13Cell{Tier: "tokens", Format: format, Tokens: toks, Mode: mode})
+				if format == "grpc/json" || (format == "jsonline" && mode == 0) {
+					// malformed entries are to be skipped where continue-on-error is requested
+					fn(C13Cell{Tier: "tokens", Format: format, Tokens: toks, Mode: mode, COE: true})
+				}
 				if _, ok := formatType[format]; ok && (mode == 0 || len(toks) <= 2) {
 					fn(C13Cell{Tier: "tokens", Format: format, Tokens: toks, Mode: mode, Preload: true})
 				}
